@@ -1,6 +1,7 @@
 package main
 
 import (
+	"sort"
 	"fmt"
 	"go/types"
 	"strings"
@@ -462,6 +463,7 @@ func (e *Engine) syncMapRange(fr *Frame, st *State, ins ssa.Instruction, id *Ter
 	ws := newWriteSet()
 	sub := &Frame{fn: cfn, cellOf: map[*ssa.Alloc]int{}, free: clo.Bindings}
 	e.blocksWrites(sub, cfn.Blocks, ws, fr.depth+1, map[*ssa.Function]bool{cfn: true})
+	auto := e.callbackAutoFrame(st, ws, fnKey, "Range")
 	if ws.all {
 		restore := e.spareForWrites(st, ws)
 		st.havocAll()
@@ -477,6 +479,9 @@ func (e *Engine) syncMapRange(fr *Frame, st *State, ins ssa.Instruction, id *Ter
 	}
 	st.cells[vcell] = scalar(Fresh("smvisited", arrSort(SInt, SBool)))
 	st.rebaseAlloc()
+	for _, k := range auto {
+		st.assume(e.frameGoal(st, k))
+	}
 	for _, inv := range invs {
 		st.assume(envOf(st).evalBool(inv.E))
 	}
@@ -488,6 +493,9 @@ func (e *Engine) syncMapRange(fr *Frame, st *State, ins ssa.Instruction, id *Ter
 	body.assume(Not(Select(body.cells[vcell].T, k)))
 	ktag := Fresh("smktag", SInt)
 	body.assume(Ne(ktag, IntLit(0)))
+	// a key whose dynamic type is string / uint64 is the box of the value it unboxes to
+	body.assume(Implies(Eq(ktag, IntLit(typeID(types.Typ[types.String]))), Eq(k, App("box_seq", SInt, App("unbox_seq", SSeq, k)))))
+	body.assume(Implies(Eq(ktag, IntLit(typeID(types.Typ[types.Uint64]))), Eq(k, App("box_int", SInt, App("unbox_int", SInt, k)))))
 	kv := Val{Fs: []Val{{T: ktag}, {T: k}}}
 	vv := Val{Fs: []Val{{T: Select(Select(body.heapGet("SM:tag", valS), id), k)}, {T: Select(Select(body.heapGet("SM:val", valS), id), k)}}}
 	domBefore := Select(dom, id)
@@ -506,6 +514,10 @@ func (e *Engine) syncMapRange(fr *Frame, st *State, ins ssa.Instruction, id *Ter
 		e.emit(&Obligation{Kind: "inv-step", Fn: fnKey, Label: "callback-Range:ranged-map-keeps-its-keys",
 			PC: o.st.pc, Goal: Eq(Select(o.st.heapGet("SM:dom", domS), id), domBefore), Trace: o.st.trace})
 		o.st.cells[vcell] = scalar(Store(o.st.cells[vcell].T, k, True()))
+		for _, ak := range auto {
+			e.emit(&Obligation{Kind: "inv-step", Fn: fnKey, Label: fmt.Sprintf("callback-Range:auto-frame:%s", shortHeapKey(ak)), PC: o.st.pc, Goal: e.frameGoal(o.st, ak),
+				Src: "frame of the function is preserved by the callback for " + ak, Trace: o.st.trace})
+		}
 		for i, inv := range invs {
 			g := envOf(o.st).evalBool(inv.E)
 			e.emit(&Obligation{Kind: "inv-step", Fn: fnKey, Label: fmt.Sprintf("callback-Range:%s", orStr(inv.Label, fmt.Sprint(i+1))),
@@ -535,4 +547,29 @@ func enclosingLoop(fr *Frame, ins ssa.Instruction) *Loop {
 		}
 	}
 	return best
+}
+
+// callbackAutoFrame: heap components the function's own frame does not allow it to change are preserved by every run of
+// a callback, like by every loop: proved at the call (inv-init), assumed after the havoc, proved again after one
+// arbitrary run (inv-step, emitted by the caller through the returned keys).
+func (e *Engine) callbackAutoFrame(st *State, ws *writeSet, fnKey, what string) []string {
+	var auto []string
+	if ws.all {
+		return nil
+	}
+	var ks []string
+	for k := range ws.keys {
+		ks = append(ks, k)
+	}
+	sort.Strings(ks)
+	for _, k := range ks {
+		if e.frameProtected(k) {
+			if _, known := heapSorts[k]; known {
+				e.emit(&Obligation{Kind: "inv-init", Fn: fnKey, Label: fmt.Sprintf("callback-%s:auto-frame:%s", what, shortHeapKey(k)), PC: st.pc, Goal: e.frameGoal(st, k),
+					Src: "frame of the function holds at the call for " + k, Trace: st.trace})
+				auto = append(auto, k)
+			}
+		}
+	}
+	return auto
 }
